@@ -23,6 +23,7 @@ Drop(fn, K)   == [x \in DOMAIN fn \ K |-> fn[x]]
 \* c : command record
 \*   pfx \in {"localhost","localhop","other"}, local (scope of the arrival face), inface,
 \*   mod, verb, hasParams, hasName, name, faceId (-1 absent), cost, origin, flags (-1 absent),
+\*   flagsMask \in {"none", "both", "flags", "mask"} (faces/update), verb = "" for a name too short to carry a verb
 \*   strat \in {"", "ok", "bare", "unknown", "badver", "alien", "empty"}, stratName, capacity (-1 absent; -2: not representable), mtu (-1 absent)
 Authorised(c) == \/ (c.pfx = "localhost" /\ c.local)
                  \/ (c.mod = "rib" /\ c.pfx = "localhop" /\ lh)
@@ -42,6 +43,7 @@ Malformed(c) ==
   \/ (c.mod = "cs" /\ c.capacity = -2)
   \/ (c.mod = "faces" /\ c.verb = "update" /\ EffFace(c) \notin DOMAIN faces)
   \/ (c.mod = "faces" /\ c.verb = "update" /\ c.mtu >= 0 /\ c.mtu < 1)          \* an MTU that cannot carry any fragment
+  \/ (c.mod = "faces" /\ c.verb = "update" /\ c.flagsMask \in {"flags", "mask"})      \* Flags and Mask come together or not at all
   \/ (c.mod = "faces" /\ c.verb = "destroy" /\ c.faceId < 0)                    \* destroy names its face explicitly (one that is gone already is fine)
 \* an MTU between 1 and MinMtu-1 may be refused or accepted (DESIGN 4.0); MinMtu and above must be accepted
 MayRefuse(c) == c.mod = "faces" /\ c.verb = "update" /\ c.mtu >= 1 /\ c.mtu < MinMtu
